@@ -8,7 +8,13 @@ from lib.common import cstr, run_cases, coq_eval
 from lib import impl, absprop, epwork
 from gen import ops as OPS
 
-HDR_BASE = ("Require Import OPC.gen.GenKinds OPC.Uni OPC.Names OPC.Codec OPC.CodecObs OPC.Types OPC.Endpoint OPC.EndpointObs OPC.Parse.\nOpen Scope N_scope.\n"
+HDR_BASE = ("Require Import OPC.gen.GenKinds OPC.Uni OPC.Names OPC.Codec OPC.CodecObs OPC.Types OPC.Endpoint OPC.EndpointObs OPC.Parse OPC.Multipart.\nOpen Scope N_scope.\n"
+            "Definition mpart_eqb (a b : mpart) : bool := match a, b with MText x, MText y | MBytes x, MBytes y | MStr x, MStr y => str_eqb x y | MJson x, MJson y => json_eqb x y | MFile, MFile => true | _, _ => false end.\n"
+            "Fixpoint mpl_eqb (a b : list (str * mpart)) : bool := match a, b with [], [] => true | (k1, x) :: a', (k2, y) :: b' => str_eqb k1 k2 && mpart_eqb x y && mpl_eqb a' b' | _, _ => false end.\n"
+            "Definition kw_case2 (T : ctable) (ep : endpoint) (a : args) (obs : option kwargs) : bool := match ep_bodies ep with [b] => match b_type b, arg a [98;111;100;121] with "
+            "BFiles, Some (PObj c fs ad) => match to_multipart T 40 c fs ad with None => (match obs with None => true | _ => false end) | Some _ => kw_case T ep a obs end | _, _ => kw_case T ep a obs end | _ => kw_case T ep a obs end.\n"
+            "Definition mp_case (o : oracles) (T : ctable) (c : N) (j : json) (obs : option (list (str * mpart))) : bool := "
+            "match dec o T 40 (KModel c) j with Some (PObj c' fs ad) => match to_multipart T 40 c' fs ad, obs with Some m, Some ob => mpl_eqb m ob | None, None => true | _, _ => false end | _ => match obs with None => true | _ => false end end.\n"
             "Definition btype_eqb (a b : btype) : bool := match a, b with BJson, BJson | BData, BData | BFiles, BFiles | BContent, BContent => true | _, _ => false end.\n"
             "Definition bplan_eqb (a b : bplan) : bool := match a, b with BInvalidType, BInvalidType | BMissingSchema, BMissingSchema | BUnsupported, BUnsupported => true | BBody x, BBody y => btype_eqb x y | _, _ => false end.\n")
 
@@ -83,10 +89,36 @@ def work(args):
                     mterm = "body_plan %s %s" % ("None" if simp is None else "(Some %s)" % cstr(simp), "true" if "schema" in mt else "false")
                     plans.append({"op": ep.name, "media_type": ct, "obs": obs, "term": term, "mterm": mterm, "generated": got is not None})
             out["plans"] = plans
+            # to_multipart of every multipart-body model on schema-directed instances
+            from gen import schemas as GS
+            inst = GS.Inst(ab, rng)
+            mp_ops, mp_meta = [], []
+            for m in ab.models:
+                if getattr(m, "is_multipart_body", False):
+                    cname = str(m.class_info.name)
+                    for _ in range(nvec + 2):
+                        try:
+                            j = inst.model_instance(cname, 0, True)
+                        except Exception:
+                            break
+                        absprop.strings_in(j, strings)
+                        mp_ops.append({"op": "multipart", "cls": cname, "data": absprop.to_runner_json(j)})
+                        mp_meta.append((cname, j))
+            n_main = len(ops)
+            ops = ops + mp_ops
             res = impl.run_client(g.out, ops, timeout=600) if ops else []
             if isinstance(res, dict):
                 out["error"] = "runner: " + res.get("fatal", "")[:1500]
                 return out
+            out["mp"] = []
+            if not isinstance(res, dict):
+                for (cname, j), r in zip(mp_meta, res[n_main:]):
+                    ent = {"cls": cname, "data": j, "res": r, "cid": ab.cls_id[cname], "j": absprop.cjson(j)}
+                    try:
+                        ent["obs"] = cmp_obs(r)
+                    except Exception as e:
+                        ent["unrepresentable"] = repr(e)
+                    out["mp"].append(ent)
             for i, (module, ep, cep, vec) in enumerate(meta):
                 rk, rs, ra = res[3 * i], res[3 * i + 1], res[3 * i + 2]
                 case = {"module": module, "op": ep.name, "vec": {k: list(v) for k, v in vec.items()}, "kw": rk, "sync": rs, "async": ra, "cep": cep,
@@ -106,6 +138,35 @@ def work(args):
         import traceback
         out["error"] = "harness worker: " + repr(e) + traceback.format_exc()[-1200:]
     return out
+
+
+def cmp_obs(r):
+    """observed to_multipart() mapping -> Coq `option (list (str * mpart))` (keys sorted by code point)"""
+    if "dec_exc" in r or "enc_exc" in r or "fatal_op" in r:
+        return "None"
+    out = r["out"]
+    if out["t"] != "dict":
+        raise ValueError("to_multipart did not return a dict")
+    items = []
+    for k, v in sorted(out["v"].items(), key=lambda kv: [ord(c) for c in kv[0]]):
+        if v["t"] == "list" and v.get("tuple") and len(v["v"]) == 3 and v["v"][1]["t"] == "bytes":
+            data = bytes.fromhex(v["v"][1]["v"])
+            ctype = v["v"][2].get("v")
+            if ctype == "text/plain":
+                items.append(f"({cstr(k)}, MText {cstr(data.decode('utf-8'))})")
+            elif ctype == "application/json":
+                items.append(f"({cstr(k)}, MJson {absprop.cjson(json.loads(data))})")
+            else:
+                raise ValueError("unknown part content type %r" % ctype)
+        elif v["t"] == "bytes":
+            items.append(f"({cstr(k)}, MBytes {cstr(bytes.fromhex(v['v']).decode('utf-8'))})")
+        elif v["t"] == "j" and isinstance(v["v"], str):
+            items.append(f"({cstr(k)}, MStr {cstr(v['v'])})")
+        elif v["t"] == "list" and v.get("tuple"):
+            items.append(f"({cstr(k)}, MFile)")
+        else:
+            raise ValueError("unexpected multipart value %r" % (v,))
+    return "(Some [" + "; ".join(items) + "])"
 
 
 def expectation(doc, ep, vec):
@@ -357,7 +418,7 @@ def run(run, tier, replay=None):
                 run.violation("correspondence", {"label": r["label"], "doc": r["doc"], "op": c["op"], "args": c["vec"], "impl": c["kw"],
                                                  "note": "generated _get_kwargs produced something the model cannot represent: " + c["unrepresentable"]})
                 continue
-            terms.append(f"kw_case T{di} {c['cep']} {c['cargs'].replace('O@', f'O{di}').replace('T@', f'T{di}')} {c['obs']}")
+            terms.append(f"kw_case2 T{di} {c['cep']} {c['cargs'].replace('O@', f'O{di}').replace('T@', f'T{di}')} {c['obs']}")
             meta.append((di, c))
     pterms, pmeta = [], []
     for di, r in enumerate(results):
@@ -370,7 +431,25 @@ def run(run, tier, replay=None):
         di, pl = pmeta[i]
         run.violation("correspondence", {"label": results[di]["label"], "doc": results[di]["doc"], "op": pl["op"], "media_type": pl["media_type"], "impl": pl["obs"],
                                          "note": "body_from_data's decision for this media type differs from Parse.body_plan"})
-    run.extra["body_plans_compared"] = len(pterms)
+    mterms, mmeta = [], []
+    for di, r in enumerate(results):
+        for ent in (r.get("mp") or []):
+            run.note_case({"doc": r["label"], "cls": ent["cls"], "multipart_instance": ent["data"]}, kind="to_multipart")
+            if "unrepresentable" in ent:
+                run.violation("correspondence", {"label": r["label"], "doc": r["doc"], "cls": ent["cls"], "instance": ent["data"], "impl": ent["res"], "note": "to_multipart returned something the model cannot represent: " + ent["unrepresentable"]})
+                continue
+            mterms.append(f"mp_case O{di} T{di} {ent['cid']}%N {ent['j']} {ent['obs']}")
+            mmeta.append((di, ent))
+    mbad = run_cases(hdr, mterms, shard=200) if mterms else []
+    for i in mbad[:6]:
+        di, ent = mmeta[i]
+        run.violation("correspondence", {"label": results[di]["label"], "doc": results[di]["doc"], "cls": ent["cls"], "instance": ent["data"], "impl": ent["res"],
+                                         "model": coq_eval(hdr, f"match dec O{di} T{di} 40 (KModel {ent['cid']}%N) {ent['j']} with Some (PObj c fs ad) => to_multipart T{di} 40 c fs ad | _ => None end")[-600:],
+                                         "note": "generated to_multipart no longer behaves like Multipart.v"})
+    run.extra["to_multipart_cases"] = len(mterms)
+    pbad = list(pbad) + list(mbad)
+    pterms = pterms + mterms
+    run.extra["body_plans_compared"] = len(pterms) - len(mterms)
     bad = set(run_cases(hdr, terms, shard=250))
     run.corr = {"cases": len(terms) + len(pterms), "mismatches": len(bad) + len(pbad), "what": "body_from_data media-type decisions == Parse.body_plan; generated _get_kwargs(**args) (method, url, params, cookies, headers, json/data body; or exception) == Endpoint.get_kwargs on the endpoint abstracted from the implementation's parse"}
     for i in sorted(bad)[:8]:
@@ -393,6 +472,9 @@ def run(run, tier, replay=None):
                     continue
                 if which == "async" and (call.get("exc") or {}).get("type") == "RuntimeError" and "sync request with an AsyncClient" in (call.get("exc") or {}).get("msg", "") \
                         and c["kw"].get("kwargs", {}).get("content") is not None and run.known_finding("octet_body_async", what):
+                    continue
+                if "exc" in c["kw"] and c["kw"]["exc"].get("type") == "TypeError" and "isinstance() arg 2" in c["kw"]["exc"].get("msg", "") and c["op"] == "multipart_null_first" \
+                        and run.known_finding("multipart_none_member_first", what):
                     continue
                 if "exc" in c["kw"]:
                     # _get_kwargs itself raises: the model predicts it (stage B agrees) - e.g. encoder given a value outside its domain
